@@ -629,6 +629,9 @@ typedef struct ares_event_thread ares_event_thread_t;
 
 void          ares_event_thread_destroy(ares_channel_t *channel);
 ares_status_t ares_event_thread_init(ares_channel_t *channel);
+/*! Tell the event thread (if the channel has one) that the earliest timeout
+ *  changed without any change to the sockets it is watching */
+void          ares_event_thread_timeout_changed(const ares_channel_t *channel);
 
 
 #ifdef _WIN32
